@@ -90,6 +90,11 @@ func shortKey(k string) string { return strings.TrimPrefix(k, modulePath+"/") }
 
 func (ex *Exec) staticCall(st *State, fr *Frame, callee *ssa.Function, binds []*Val, args []*Val, instr ssa.Instruction, k func(st *State, res *Val)) {
 	key := funcKey(callee)
+	if callee.Name() == "init" && callee.Synthetic != "" && callee != fr.fn {
+		// initialisation of an imported package: not part of this function's contract
+		k(st, nil)
+		return
+	}
 	if ex.intrinsic(st, fr, key, callee, args, instr, k) {
 		return
 	}
@@ -1402,6 +1407,10 @@ func (ex *Exec) readGlobal(st *State, loc *Loc) *Val {
 	v := ex.loadGlobal(st, loc)
 	g := loc.Global
 	gs := ex.P.Specs.Globals[g.Pkg.Pkg.Path()+"."+g.Name()]
+	if _, assigned := st.heap[ex.globalKey(g)+" "]; assigned {
+		// the function under verification assigned the global: the declared facts speak about initial values only
+		gs = nil
+	}
 	if gs != nil && v.T != nil && loc.PathS == "" {
 		if gs.NonNil {
 			st.assume(Gt(v.T, IntLit(0)))
